@@ -393,10 +393,6 @@ func (g *gen) history(kind int, id int64, v int) (e dsEntry, class string) {
 	default:
 		class = "hist:unsorted"
 	}
-	if g.rng.Intn(60) == 0 {
-		vs[g.rng.Intn(len(vs))] = -1 - g.rng.Intn(3)
-		class = "hist:negative-version"
-	}
 	for _, hv := range vs {
 		e.Hist = append(e.Hist, el{kind, id, hv, g.rng.Intn(4) != 0, g.nextPay()})
 	}
@@ -481,7 +477,7 @@ func main() {
 	rng := wire.Rng(a.Seed)
 	w := wire.NewWriter("C13", a.Seed, a.Tier)
 	g := &gen{rng: rng, w: w, pay: 1000}
-	w.Rule = "osmChange with 0-4 nodes/ways/relations per create/modify/delete section (sections sometimes nil), histories per element: absent, nil slice, empty, other data-source error, 1-6 entries unsorted/ascending/descending with gaps, version 0, later versions, duplicates of the new version and of each other, nothing below; option none / IgnoreMissingChildren(false) / (true); every object carries a distinct payload (changeset id). Single-element changes exercise the predecessor search alone. distinct = distinct token streams; trivial = empty change or a negative history version."
+	w.Rule = "osmChange with 0-4 nodes/ways/relations per create/modify/delete section (sections sometimes nil), histories per element: absent, nil slice, empty, other data-source error, 1-6 entries unsorted/ascending/descending with gaps, version 0, later versions, duplicates of the new version and of each other, nothing below; option none / IgnoreMissingChildren(false) / (true); every object carries a distinct payload (changeset id). Single-element changes exercise the predecessor search alone. distinct = distinct token streams; trivial = empty change. History versions are >= 0 (the domain of the property; OSM versions start at 1)."
 	nChange, nSingle := 420, 380
 	if a.Tier == "thorough" {
 		nChange, nSingle = 8000, 8000
@@ -545,7 +541,6 @@ func main() {
 		in.DS = []dsEntry{h}
 		c := mkCase(in, nil)
 		c.Class = "single"
-		c.Trivial = class == "hist:negative-version"
 		w.Add(c)
 	}
 
